@@ -20,7 +20,7 @@ def stepC26 (s : DS) (fs : List String) : DS × String :=
   | ["msg", _kind, now, sender, nonce, ts, mac] =>
     match int? now, int? ts with
     | some now, some ts =>
-      let e : Ev := { now := now, msg := { key := sender ++ "\x00" ++ nonce, ts := ts, macOk := mac == "1" } }
+      let e : Ev := { now := now, msg := { key := sender ++ "\x00" ++ nonce, ts := ts, macOk := mac == "1" || mac == "2" } }
       let (c', v) := handle s.cfg s.c e
       ({ s with c := c' }, s!"{verdictStr v} len={c'.entries.length}")
     | _, _ => (s, "bad-op")
@@ -28,7 +28,7 @@ def stepC26 (s : DS) (fs : List String) : DS × String :=
     -- handler level: the wire collapses every rejection reason
     match int? now, int? ts with
     | some now, some ts =>
-      let e : Ev := { now := now, msg := { key := sender ++ "\x00" ++ nonce, ts := ts, macOk := mac == "1" } }
+      let e : Ev := { now := now, msg := { key := sender ++ "\x00" ++ nonce, ts := ts, macOk := mac == "1" || mac == "2" } }
       let (c', v) := handle s.cfg s.c e
       let w := if v == .accepted then "accepted" else "rejected"
       ({ s with c := c' }, s!"{w} len={c'.entries.length}")
@@ -37,7 +37,7 @@ def stepC26 (s : DS) (fs : List String) : DS × String :=
     -- real lifecycle: only the verdict is observable
     match int? now, int? ts with
     | some now, some ts =>
-      let e : Ev := { now := now, msg := { key := sender ++ "\x00" ++ nonce, ts := ts, macOk := mac == "1" } }
+      let e : Ev := { now := now, msg := { key := sender ++ "\x00" ++ nonce, ts := ts, macOk := mac == "1" || mac == "2" } }
       let (c', v) := handle s.cfg s.c e
       ({ s with c := c' }, if v == .accepted then "accepted" else "rejected")
     | _, _ => (s, "bad-op")
